@@ -86,10 +86,20 @@ def deep_eq(left, right, depth=0):  # pylint: disable=too-many-return-statements
         return isinstance(left, bool) and isinstance(right, bool) and left == right
     if isinstance(left, (int, float, str)) and isinstance(right, (int, float, str)):
         return left == right
+    import datetime  # pylint: disable=import-outside-toplevel
+    if isinstance(left, (datetime.date, datetime.timedelta, datetime.time)):
+        return type(left) is type(right) and left == right   # (CrossHair's pure-Python datetime caches attributes)
     if left is None or right is None:
         return False
     if type(left) is not type(right):  # pylint: disable=unidiomatic-typecheck
         return False
+    module = getattr(type(left), '__module__', '') or ''
+    if not module.startswith(('cryptoparser.', 'symcheck.', 'builtins', 'collections')) and not isinstance(
+            left, (list, tuple, set, frozenset, dict)):
+        # third-party value (cryptodatahub key objects, asn1crypto, ipaddress, urllib3, ...): its own equality
+        if hasattr(left, 'dump') and hasattr(right, 'dump') and module.startswith('asn1crypto'):
+            return left.dump() == right.dump()
+        return left == right
     if hasattr(left, '_items') and hasattr(left, 'get_param'):
         return deep_eq(list(left._items), list(right._items), depth + 1)  # pylint: disable=protected-access
     if attr.has(type(left)):
